@@ -1806,4 +1806,83 @@ VARIANTS = [
       find='\t\t\t\t// file name does not follow the notation-{plugin-name} format,\n\t\t\t\t// continue\n\t\t\t\treturn nil', replace='\t\t\t\treturn fs.SkipDir'),
  dict(name='benign-skipdir-by-type-bits', file=F, expect='silent',
       find='\t\tif d.IsDir() && path != src {\n\t\t\treturn fs.SkipDir\n\t\t}\n', replace='\t\tif d.IsDir() && path != src {\n\t\t\tif d.Type().IsDir() {\n\t\t\t\treturn fs.SkipDir\n\t\t\t}\n\t\t\treturn filepath.SkipDir\n\t\t}\n'),
+ # P. sixth pass (guard-mutation campaign): a guard whose condition got a further conjunct is still there, and what lies
+ #    behind its edges is still right, but the guarded code is reached without it. Each guard: disabled (`false && (C)`),
+ #    weakened by a conjunct built from what is in scope, and the same guard spelled differently (silent).
+ # P1. "skip sub-directories" as a must-pass fact of the callback
+ dict(name='gm-dircopy-skip-guard-disabled', file=F, expect='flagged(discovery/skip-sub-directories)',
+      find='\t\tif d.IsDir() && path != src {', replace='\t\tif false && (d.IsDir() && path != src) {',
+      why='files of sub-directories are copied flat into the plugin directory'),
+ dict(name='gm-dircopy-skip-guard-extra-conjunct', file=F, expect='flagged(discovery/skip-sub-directories)',
+      find='\t\tif d.IsDir() && path != src {', replace='\t\tif d.IsDir() && path != src && d.Name() != filepath.Base(dst) {',
+      why='a sub-directory named like the destination is entered'),
+ dict(name='gm-parser-skip-guard-disabled', file=M, expect='flagged(discovery/skip-sub-directories)',
+      find='\t\tif d.IsDir() && p != path {', replace='\t\tif false && (d.IsDir() && p != path) {',
+      why='F14 again: a nested executable is a candidate'),
+ dict(name='gm-parser-skip-guard-extra-conjunct', file=M, expect='flagged(discovery/skip-sub-directories)',
+      find='\t\tif d.IsDir() && p != path {', replace='\t\tif len(filesWithValidNameFormat) > 0 && d.IsDir() && p != path {',
+      why='sub-directories are skipped only once a candidate was seen'),
+ dict(name='gm-benign-parser-skip-as-switch', file=M, expect='silent',
+      find='\t\tif d.IsDir() && p != path {\n\t\t\treturn fs.SkipDir\n\t\t}\n', replace='\t\tswitch {\n\t\tcase !d.IsDir():\n\t\tcase path == p:\n\t\tdefault:\n\t\t\treturn fs.SkipDir\n\t\t}\n',
+      why='the same decision as a tagless switch, operands of the root comparison swapped'),
+ dict(name='gm-benign-dircopy-skip-operands-swapped', file=F, expect='silent',
+      find='\t\tif d.IsDir() && path != src {', replace='\t\tif src != path && d.IsDir() {'),
+ # P2. "every regular entry is copied" asked from the entry of the callback
+ dict(name='gm-dircopy-regular-guard-disabled', file=F, expect='flagged(copy/directory)',
+      find='\t\tif info.Mode().IsRegular() {\n\t\t\treturn CopyToDir(path, dst)', replace='\t\tif false && (info.Mode().IsRegular()) {\n\t\t\treturn CopyToDir(path, dst)',
+      why='nothing is copied and the directory copy reports success'),
+ dict(name='gm-dircopy-regular-guard-extra-conjunct', file=F, expect='flagged(copy/directory)',
+      find='\t\tif info.Mode().IsRegular() {\n\t\t\treturn CopyToDir(path, dst)', replace='\t\tif info.Mode().IsRegular() && info.Size() > 0 {\n\t\t\treturn CopyToDir(path, dst)',
+      why='empty files of the source are missing in the plugin directory'),
+ dict(name='gm-benign-dircopy-regular-as-switch', file=F, expect='silent',
+      find='\t\tif info.Mode().IsRegular() {\n\t\t\treturn CopyToDir(path, dst)\n\t\t}\n\t\treturn nil', replace='\t\tswitch mode := info.Mode(); {\n\t\tcase !mode.IsRegular():\n\t\t\treturn nil\n\t\tdefault:\n\t\t\treturn CopyToDir(path, dst)\n\t\t}'),
+ # P3. the error the walk hands to its callback
+ dict(name='gm-dircopy-walk-error-guard-disabled', file=F, expect='flagged(discovery/walk-error-returned)',
+      find='\t\tif err != nil {\n\t\t\treturn err\n\t\t}\n\t\t// skip sub-directories\n\t\tif d.IsDir() && path != src {', replace='\t\tif false && (err != nil) {\n\t\t\treturn err\n\t\t}\n\t\t// skip sub-directories\n\t\tif d.IsDir() && path != src {',
+      why='a source directory that cannot be read is "copied" successfully'),
+ dict(name='gm-dircopy-walk-error-extra-conjunct', file=F, expect='flagged(discovery/walk-error-returned)',
+      find='\t\tif err != nil {\n\t\t\treturn err\n\t\t}\n\t\t// skip sub-directories\n\t\tif d.IsDir() && path != src {', replace='\t\tif err != nil && path != src {\n\t\t\treturn err\n\t\t}\n\t\t// skip sub-directories\n\t\tif d.IsDir() && path != src {',
+      why='the error of reading the root itself is swallowed'),
+ dict(name='gm-parser-walk-error-guard-disabled', file=M, expect='flagged(discovery/walk-error-returned)',
+      find='\t\tif err != nil {\n\t\t\treturn err\n\t\t}\n\t\t// skip sub-directories\n\t\tif d.IsDir() && p != path {', replace='\t\tif false && (err != nil) {\n\t\t\treturn err\n\t\t}\n\t\t// skip sub-directories\n\t\tif d.IsDir() && p != path {'),
+ dict(name='gm-parser-walk-error-extra-conjunct', file=M, expect='flagged(discovery/walk-error-returned)',
+      find='\t\tif err != nil {\n\t\t\treturn err\n\t\t}\n\t\t// skip sub-directories\n\t\tif d.IsDir() && p != path {', replace='\t\tif err != nil && d == nil {\n\t\t\treturn err\n\t\t}\n\t\t// skip sub-directories\n\t\tif d.IsDir() && p != path {',
+      why='the parser decides on a partial listing of the source'),
+ dict(name='gm-benign-walk-error-respelled', expect='silent',
+      edits=[(F, '\t\tif err != nil {\n\t\t\treturn err\n\t\t}\n\t\t// skip sub-directories\n\t\tif d.IsDir() && path != src {', '\t\tswitch {\n\t\tcase nil != err:\n\t\t\treturn fmt.Errorf("failed to walk %s: %w", path, err)\n\t\t}\n\t\t// skip sub-directories\n\t\tif d.IsDir() && path != src {'),
+             (M, '\t\tif err != nil {\n\t\t\treturn err\n\t\t}\n\t\t// skip sub-directories\n\t\tif d.IsDir() && p != path {', '\t\tif err == nil {\n\t\t\tif d == nil {\n\t\t\t\treturn errors.New("no entry")\n\t\t\t}\n\t\t} else {\n\t\t\treturn err\n\t\t}\n\t\t// skip sub-directories\n\t\tif d.IsDir() && p != path {')],
+      why='the same test as a switch with swapped operands and a wrapped error; as an if/else on `err == nil`'),
+ # P4. error discipline of the copy routines
+ dict(name='gm-copyfile-stat-error-guard-disabled', file=F, expect='flagged(copy/errors-checked)',
+      find='\tsourceFileInfo, err := os.Stat(src)\n\tif err != nil {', replace='\tsourceFileInfo, err := os.Stat(src)\n\tif false && (err != nil) {'),
+ dict(name='gm-copyfile-open-error-guard-disabled', file=F, expect='flagged(copy/errors-checked)',
+      find='\tsource, err := os.Open(src)\n\tif err != nil {', replace='\tsource, err := os.Open(src)\n\tif false && (err != nil) {'),
+ dict(name='gm-copyfile-mkdir-error-guard-disabled', file=F, expect='flagged(copy/errors-checked)',
+      find='\tif err := os.MkdirAll(dst, 0755); err != nil {', replace='\tif err := os.MkdirAll(dst, 0755); false && (err != nil) {'),
+ dict(name='gm-copyfile-create-error-guard-disabled', file=F, expect='flagged(copy/errors-checked)',
+      find='\tdestination, err := os.Create(dstFile)\n\tif err != nil {', replace='\tdestination, err := os.Create(dstFile)\n\tif false && (err != nil) {'),
+ dict(name='gm-copyfile-chmod-error-guard-disabled', file=F, expect='flagged(copy/errors-checked)',
+      find='\terr = destination.Chmod(sourceFileInfo.Mode() & os.FileMode(0755))\n\tif err != nil {', replace='\terr = destination.Chmod(sourceFileInfo.Mode() & os.FileMode(0755))\n\tif false && (err != nil) {',
+      why='the installed executable keeps the default mode (not executable) and the copy reports success'),
+ dict(name='gm-copyfile-chmod-error-extra-conjunct', file=F, expect='flagged(copy/errors-checked)',
+      find='\terr = destination.Chmod(sourceFileInfo.Mode() & os.FileMode(0755))\n\tif err != nil {', replace='\terr = destination.Chmod(sourceFileInfo.Mode() & os.FileMode(0755))\n\tif err != nil && !errors.Is(err, os.ErrPermission) {',
+      why='a refused chmod is tolerated'),
+ dict(name='gm-copyfile-chmod-error-overwritten', file=F, expect='flagged(copy/errors-checked)',
+      find='\terr = destination.Chmod(sourceFileInfo.Mode() & os.FileMode(0755))\n\tif err != nil {\n\t\treturn err\n\t}\n', replace='\terr = destination.Chmod(sourceFileInfo.Mode() & os.FileMode(0755))\n',
+      why='the error is overwritten by the next step before anybody looked at it'),
+ dict(name='gm-copydir-stat-error-guard-disabled', file=F, expect='flagged(copy/errors-checked)',
+      find='\tfi, err := os.Stat(src)\n\tif err != nil {', replace='\tfi, err := os.Stat(src)\n\tif false && (err != nil) {'),
+ dict(name='gm-copydir-stat-error-extra-conjunct', file=F, expect='flagged(copy/errors-checked)',
+      find='\tfi, err := os.Stat(src)\n\tif err != nil {', replace='\tfi, err := os.Stat(src)\n\tif err != nil && src != dst {'),
+ dict(name='gm-copydir-info-error-guard-disabled', file=F, expect='flagged(copy/errors-checked)',
+      find='\t\tinfo, err := d.Info()\n\t\tif err != nil {\n\t\t\treturn err\n\t\t}\n\t\t// only copy regular files', replace='\t\tinfo, err := d.Info()\n\t\tif false && (err != nil) {\n\t\t\treturn err\n\t\t}\n\t\t// only copy regular files'),
+ dict(name='gm-copydir-info-error-extra-conjunct', file=F, expect='flagged(copy/errors-checked)',
+      find='\t\tinfo, err := d.Info()\n\t\tif err != nil {\n\t\t\treturn err\n\t\t}\n\t\t// only copy regular files', replace='\t\tinfo, err := d.Info()\n\t\tif err != nil && !errors.Is(err, fs.ErrNotExist) {\n\t\t\treturn err\n\t\t}\n\t\t// only copy regular files',
+      why='an entry that vanished during the walk is tolerated (and its nil Info is used)'),
+ dict(name='gm-benign-copyfile-errors-respelled', file=F, expect='silent',
+      find='\terr = destination.Chmod(sourceFileInfo.Mode() & os.FileMode(0755))\n\tif err != nil {\n\t\treturn err\n\t}\n\t_, err = io.Copy(destination, source)\n\treturn err\n', replace='\tif err := destination.Chmod(sourceFileInfo.Mode() & os.FileMode(0755)); nil != err {\n\t\treturn fmt.Errorf("failed to set the mode of %s: %w", dstFile, err)\n\t}\n\tswitch _, err := io.Copy(destination, source); {\n\tcase err != nil:\n\t\treturn err\n\t}\n\treturn nil\n',
+      why='each error tested where it arises: if with initialiser and swapped operands, a switch, wrapped error, final `return nil`'),
+ dict(name='gm-benign-copyfile-one-error-variable', file=F, expect='silent',
+      find='\tif err := os.MkdirAll(dst, 0755); err != nil {\n\t\treturn err\n\t}\n', replace='\tif err = os.MkdirAll(dst, 0755); err != nil {\n\t\treturn err\n\t}\n',
+      why='all steps share one error variable'),
 ]
